@@ -93,6 +93,22 @@ class _ShortSleep:
         return getattr(_t, name)
 
 
+class _TTY:
+    """stdout of a simulated process that is attached to a terminal (output is discarded)."""
+
+    def write(self, s):
+        return len(s)
+
+    def flush(self):
+        pass
+
+    def isatty(self):
+        return True
+
+    def fileno(self):
+        return 1
+
+
 class _LogProxy:
     """Stands in for the `logging` module object inside outrank.task_ranking (which is also what the
     streaming loop receives as its logger): records messages, emits nothing."""
@@ -340,7 +356,8 @@ class Monitors:
             by_col = {col: self.history(j, col, rows) for j, col in enumerate(header)}
             exp = stats.rare_values(by_col, thr)
             exp_task = stats.rare_values({col: [r[j] for r in rows] for j, col in enumerate(header)}, thr)
-            got = dict(core_ranking.GLOBAL_RARE_VALUE_STORAGE)
+            # constructed columns (MULTIEX-*, SUBFEATURE-*, interactions ...) are counted too; the model covers the file's columns
+            got = {k: v for k, v in core_ranking.GLOBAL_RARE_VALUE_STORAGE.items() if k[0] in header}
             if got != exp and got != exp_task:
                 diff = sorted(set(got.items()) ^ set(exp.items()), key=repr)[:6]
                 self.violate('C13', 'rare-values-running', {'threshold': thr, 'batches': len(self.batches_rows), 'difference': diff})
@@ -642,7 +659,8 @@ class Monitors:
                 if (r[0], r[1]) in got:
                     self.violate('C13', 'rare-report-duplicate-row', {'row': r, 'threshold': thr})
                     return
-                got[(r[0], r[1])] = c
+                if r[0] in header:          # rows about constructed columns are outside the model
+                    got[(r[0], r[1])] = c
         if got != exp and got != exp_task:
             diff = sorted(set(got.items()) ^ set(exp.items()), key=repr)[:6]
             self.violate('C13', 'rare-report', {'threshold': thr, 'difference': diff, 'written': len(got), 'exact': len(exp)})
@@ -763,6 +781,8 @@ def simulated_process(spec, phase, root):
         _real_time.time = st.time
         _real_time.monotonic = st.monotonic
         _real_time.perf_counter = st.monotonic
+    if spec.get('tty'):
+        sys.stdout = _TTY()
     fs.install()
     argv = build_argv(cli, os.path.join(root, 'data'))
     old_argv = sys.argv
